@@ -45,3 +45,16 @@ TEXT = dict(
     text='C05: for every sequence of messages outside the class of KF-C05-2 (a wire field that is the destination of an accumulating component counting in another unit: record.distance next to compressed_speed_distance), wherever the specification determines it, the model of the decoder\'s expansion returns exactly the specification\'s messages (C05_expansion_fields_partial): component k = bits [sum of earlier widths, +bits_k) of the little-endian container, first zero slice of a multi-component container stops it, accumulating components carry the running total of a wrapping counter of their width over the messages of the sequence (seeded by a wire value of the destination, C05_seed_exact / C05_running_total), value = convertU32(componentValue ...), replace-or-append at the last field with the destination number, recursion through destination components and sub-fields; the arithmetic is exact wherever the physical value is an integer in the uint32 range and within one unit otherwise, for every profile row and every slice or total < 2^32 (C05_expansion_values); expansion off = the wire messages; on = off plus flagged fields, and a wire field changes only if it is the destination of a component PRESENT in the message (C05_untouched). OPEN finding KF-C05-2: the decoder seeds the accumulator with record.distance in 1/100 m and adds 1/16 m deltas to it (641000 instead of 103400): C05_KF2_witness; the suite pins the unconverted Collect (TestDecodeFields), so it is not repaired.',
     note='Trusted: Lean kernel; profile translator; line protocol; binary64 model tied by differential testing. Partial: C05_expansion_fields_partial / C05_expansion_property_partial exclude the class of KF-C05-2 (seedsOtherUnit).',
 )
+
+# --- tie by translation (translators/go2lean, notes/go2lean.md; agreement theorems in lean/FitProps/C05Go2Lean.lean).
+# Kept as a separate block so that it never collides with edits of the dictionary above.
+PROP['regen'] = PROP['regen'] + ['go2lean:decoderbits']
+PROP['go2lean_diff'] = ['Bits', 'Accum']      # lean/Go2LeanDiff/<Topic>.lean: search for a differing argument when an agreement theorem breaks
+PROP['theorems'] = PROP['theorems'] + [
+    'Fit.C05.C05_go2lean_pull',
+    'Fit.C05.C05_go2lean_pull_twice',
+    'Fit.C05.C05_go2lean_collect',
+    'Fit.C05.C05_go2lean_accumulate',
+    'Fit.C05.C05_go2lean_accum_reset']
+PROP['trusted_base'] = PROP['trusted_base'] + [
+    "translators/go2lean (Go→Lean for a small subset of Go, notes/go2lean.md) re-translates (*bits).Pull of decoder/bits.go and (*Accumulator).Collect / Accumulate / Reset of decoder/accumulator.go (the accumulator is assumed to own its slice: no other live slice shares its backing array) from the current source on every run; the agreement theorems *_go2lean_* state that the translated functions equal the hand-written model functions for all arguments; trusted: the translator's rendering of the subset (go/types computes constants and types) and FitModel/GoPrelude.lean"]
